@@ -93,7 +93,9 @@ inductive RData where
   /-- SIG / RRSIG -/
   | sig (covered alg labels ottl expiration inception tag : Nat) (signer : Name) (sig : Bytes)
   | nsec (next : Name) (types : List Nat)
-  | nsec3 (optOut : Bool) (iterations : Nat) (salt hash : Bytes) (types : List Nat)
+  /-- `b32` is `next_hashed_owner_name_base32`: the base32hex label computed by
+  `NSEC3::with_record_type_set` on the decode path, `none` when it is not a valid label -/
+  | nsec3 (optOut : Bool) (iterations : Nat) (salt hash : Bytes) (b32 : Option Bytes) (types : List Nat)
   | nsec3param (optOut : Bool) (iterations : Nat) (salt : Bytes)
   | cert (ctype tag alg : Nat) (d : Bytes)
   | csync (serial flags : Nat) (types : List Nat)
@@ -364,6 +366,33 @@ def readTsig : Rd RData := do
       let other ← readSlice otherLen
       pure (.tsig { alg with fqdn := false } (th * 4294967296 + tl) fudge mac oid err other)
 
+/-! ### `NSEC3::with_record_type_set`: `Label::from_ascii(BASE32_DNSSEC.encode(hash)).ok()` -/
+
+/-- the base32hex alphabet `0-9a-v` -/
+def b32Char (v : Nat) : Nat := if v < 10 then 48 + v else 87 + v
+
+/-- one input octet: `acc` holds `nbits < 5` pending bits; emits one or two characters -/
+def b32Step (st : Nat × Nat × Bytes) (b : Nat) : Nat × Nat × Bytes :=
+  let acc := st.1 * 256 + b
+  let n := st.2.1 + 8
+  let c1 := acc / 2 ^ (n - 5)
+  let acc := acc % 2 ^ (n - 5)
+  let n := n - 5
+  if n ≥ 5 then
+    (acc % 2 ^ (n - 5), n - 5, st.2.2 ++ [b32Char c1, b32Char (acc / 2 ^ (n - 5))])
+  else (acc, n, st.2.2 ++ [b32Char c1])
+
+/-- `data_encoding::BASE32_DNSSEC.encode` (no padding) -/
+def b32Encode (d : Bytes) : Bytes :=
+  let st := d.foldl b32Step (0, 0, [])
+  if st.2.1 = 0 then st.2.2 else st.2.2 ++ [b32Char (st.1 * 2 ^ (5 - st.2.1))]
+
+/-- `Label::from_ascii(..).ok()` on base32hex text: every character is acceptable, so only the
+length decides (1..=63 characters, i.e. a hash of 1..=39 octets) -/
+def b32Label (hash : Bytes) : Option Bytes :=
+  let e := b32Encode hash
+  if e.length = 0 ∨ e.length > 63 then none else some e
+
 /-- NSEC3 / NSEC3PARAM common head: hash algorithm (only 1 is known), flags (only opt-out), iterations, salt -/
 def readNsec3Head : Rd (Bool × Nat × Bytes) := do
   let alg ← pop
@@ -526,7 +555,7 @@ def readDnssec (t : Nat) : Rd RData :=
     else
       let hash ← readSlice hashLen
       let ts ← readTypeSet
-      pure (.nsec3 optOut iter salt hash ts)
+      pure (.nsec3 optOut iter salt hash (b32Label hash) ts)
   else if t = 51 then do                                     -- NSEC3PARAM
     let (optOut, iter, salt) ← readNsec3Head
     pure (.nsec3param optOut iter salt)
@@ -767,14 +796,29 @@ def readMessage (opq : Nat → Rd Bytes) : Rd Message := do
   pure { md := mergeRcode md edns, queries := queries, answers := answers,
          authorities := authorities, additionals := additionals, signature := sig, edns := edns }
 
+/-- `Queries::read`, first half: the query and the octets it occupied (`slice_from(queries_start)`) -/
+def readQueryRaw : Rd (Query × Bytes) := do
+  let start ← index
+  let q ← readQuery
+  let raw ← sliceFrom start
+  pure (q, raw)
+
+/-- `Queries::read`, second half: the question is kept for the echo in plain wire form when it was
+received compressed (crates/proto fix cb5609e "echo a compressed question name in uncompressed
+form"); `&original[original.len() - 4..]` is a slice index. -/
+def echoBytes (q : Query) (raw : Bytes) : Rd Bytes :=
+  if raw.length ≠ q.name.encodedLen + 4 then
+    if raw.length < 4 then Rd.panic "Queries::read:original[len-4..]"
+    else pure (Name.wire q.name ++ raw.drop (raw.length - 4))
+  else pure raw
+
 /-- `Request::from_bytes` = `Header::read`, `Queries::read`, `MessageRequest::read_with_queries` -/
 def readRequest (opq : Nat → Rd Bytes) : Rd Request := do
   let (md, counts) ← readHeader
   if counts.qd ≠ 1 then fail                                               -- BadQueryCount
   else
-    let start ← index
-    let q ← readQuery
-    let original ← sliceFrom start
+    let (q, raw) ← readQueryRaw
+    let original ← echoBytes q raw
     let (answers, _, _) ← readRecords opq false md.op counts.an ([], none, none)
     let (authorities, _, _) ← readRecords opq false md.op counts.ns ([], none, none)
     let (additionals, edns, sig) ← readRecords opq true md.op counts.ar ([], none, none)
